@@ -1,7 +1,869 @@
-//! C13 — TODO
-use mc_core::Ctx;
+//! C13 — imported chain data converges to the canonical chain under any roll-backs.
+//!
+//! Explicit-state exploration by replay: a state is an event history over
+//! {Advance, Fork, ArmFork, Import, Restart, Reconnect, Prune}; every history is replayed on a
+//! fresh instance of the real signer-side stack (see sut.rs) against the harness node (node.rs).
+//! Oracle (differential, no re-implementation of the importer): after every `Import(t)` the
+//! tables must equal those of a fresh node that imports the current canonical chain once up to t,
+//! and the root both signable builders give for every beacon b <= t must equal the root of a
+//! fresh node that imported exactly up to b.
 
-pub fn run(_ctx: &Ctx) -> ! {
-    eprintln!("C13: not implemented");
-    std::process::exit(2)
+use std::collections::HashMap;
+use std::path::{Path, PathBuf};
+use std::sync::atomic::{AtomicU64, Ordering};
+use std::sync::{Arc, Mutex};
+
+use mc_core::explore::{Explorer, RunResult, standard_edits};
+use mc_core::{Ctx, Report, Violation, hash64};
+use serde::{Deserialize, Serialize};
+use serde_json::json;
+
+use crate::node::{Blk, Served, Server};
+use crate::sut::{Cfg, Sut, Tables, new_db, read_tables, remove_db};
+
+pub const MAX_LEN: usize = 50;
+const RANGE: u64 = 15;
+
+#[derive(Clone, Copy, Debug, PartialEq, Eq, Serialize, Deserialize)]
+pub enum ForkTo {
+    /// one block below the tip
+    TipMinus1,
+    /// the last block of the highest complete block range below the tip (14, 29, 44)
+    Boundary,
+    /// one below (13, 28, 43): inside a range whose root may be stored
+    BoundaryMinus1,
+    /// the first block of the next range (15, 30, 45)
+    BoundaryPlus1,
+    /// the lowest block the node has stored
+    FirstStored,
+    /// the block below it (Origin if there is none)
+    BeforeFirstStored,
+}
+const FORK_TOS: [ForkTo; 6] =
+    [ForkTo::TipMinus1, ForkTo::Boundary, ForkTo::BoundaryMinus1, ForkTo::BoundaryPlus1, ForkTo::FirstStored, ForkTo::BeforeFirstStored];
+
+#[derive(Clone, Copy, Debug, PartialEq, Eq, Serialize, Deserialize)]
+pub enum Target {
+    Tip,
+    TipMinus5,
+    Abs(u64),
+}
+const TARGETS: [Target; 6] = [Target::Tip, Target::TipMinus5, Target::Abs(14), Target::Abs(29), Target::Abs(44), Target::Abs(24)];
+
+#[derive(Clone, Copy, Debug, PartialEq, Eq, Serialize, Deserialize)]
+pub enum Ev {
+    /// the node's chain grows by n blocks
+    Advance(u64),
+    /// the node switches to a fork that keeps the blocks up to the given point and is one block
+    /// longer than the chain it replaces
+    Fork(ForkTo),
+    /// the node will switch to a fork `depth` blocks below the client's read pointer once the next
+    /// scan has rolled two blocks forward (a roll-back in the middle of an import)
+    ArmFork(u64),
+    /// the signer computes the protocol message for this beacon (import up to it, then roots)
+    Import(Target),
+    /// new signer process on the same database (the importer's last polled point is lost)
+    Restart,
+    /// the connection to the node is lost, the signer process goes on
+    Reconnect,
+    /// `ChainDataPruner::prune(keep)` as `ChainDataImporterWithPruner` calls it after an import
+    Prune(u64),
+}
+
+#[derive(Clone, Copy, PartialEq)]
+pub enum Mode {
+    /// prefix-closed exploration: the root oracle runs after the last event only; a history whose
+    /// proper prefix already diverged is pruned
+    Bfs,
+    /// free-standing histories: all oracles after every import, inapplicable events are skipped
+    Ball,
+}
+
+// counters over all replays (deterministic: the set of replays is)
+static N_IMPORTS: AtomicU64 = AtomicU64::new(0);
+static N_IMPORTS_NO_SCAN: AtomicU64 = AtomicU64::new(0);
+static N_IMPORTS_INCREMENTAL: AtomicU64 = AtomicU64::new(0);
+static N_ROLLBACKS_APPLIED: AtomicU64 = AtomicU64::new(0);
+static N_ROLLBACKS_ECHO: AtomicU64 = AtomicU64::new(0);
+static N_IMPORT_ERRORS: AtomicU64 = AtomicU64::new(0);
+static N_NODE_TIMEOUTS: AtomicU64 = AtomicU64::new(0);
+static N_MIDSCAN_FORKS: AtomicU64 = AtomicU64::new(0);
+static N_ROOT_COMPARISONS: AtomicU64 = AtomicU64::new(0);
+static N_TABLE_COMPARISONS: AtomicU64 = AtomicU64::new(0);
+static N_SHADOW_MISMATCH: AtomicU64 = AtomicU64::new(0);
+static N_INTERSECT_NOT_FOUND: AtomicU64 = AtomicU64::new(0);
+
+/// What a fresh node holds and answers after importing `chain` once up to `imported_to`.
+pub struct Fresh {
+    pub tables: Tables,
+    pub sign_blocks: Result<String, String>,
+    pub sign_legacy: Option<Result<String, String>>,
+    /// root of the blocks builder for every beacon 0..=imported_to asked on that node
+    pub roots_blocks: Vec<Result<String, String>>,
+}
+
+pub struct FreshCache {
+    scratch: PathBuf,
+    map: Mutex<HashMap<(u64, u64, Cfg), Arc<Fresh>>>,
+}
+
+impl FreshCache {
+    pub fn new(scratch: &Path) -> FreshCache {
+        FreshCache { scratch: scratch.to_path_buf(), map: Mutex::new(HashMap::new()) }
+    }
+    pub fn len(&self) -> usize {
+        self.map.lock().unwrap().len()
+    }
+    async fn get(&self, chain: &[Blk], imported_to: u64, cfg: Cfg) -> Arc<Fresh> {
+        // the streamer reads at most two blocks beyond its target
+        let visible = chain.len().min(imported_to as usize + 2);
+        let key = (hash64(&chain[..visible]), imported_to, cfg);
+        if let Some(f) = self.map.lock().unwrap().get(&key) {
+            return f.clone();
+        }
+        let db = new_db(&self.scratch);
+        let mut server = Server::new(MAX_LEN);
+        server.chain = chain.to_vec();
+        let server = Arc::new(Mutex::new(server));
+        let sut = Sut::start(&db, server, cfg);
+        let sign_blocks = sut.sign_blocks(imported_to).await;
+        let sign_legacy = if (imported_to + 1) % RANGE == 0 { Some(sut.sign_legacy(imported_to).await) } else { None };
+        let tables = read_tables(&db);
+        // only needed to name the cause of a wrong root at a beacon inside a complete range
+        let mut roots_blocks = vec![];
+        if (imported_to + 1) % RANGE == 0 {
+            for b in 0..=imported_to {
+                roots_blocks.push(sut.root_blocks(b).await);
+            }
+        }
+        drop(sut);
+        remove_db(&db);
+        let f = Arc::new(Fresh { tables, sign_blocks, sign_legacy, roots_blocks });
+        self.map.lock().unwrap().entry(key).or_insert(f).clone()
+    }
+}
+
+fn same(a: &Result<String, String>, b: &Result<String, String>) -> bool {
+    match (a, b) {
+        (Ok(x), Ok(y)) => x == y,
+        (Err(_), Err(_)) => true,
+        _ => false,
+    }
+}
+
+fn short(r: &Result<String, String>) -> String {
+    match r {
+        Ok(s) => s.chars().take(12).collect(),
+        Err(e) => format!("error({})", e.chars().take(60).collect::<String>()),
+    }
+}
+
+fn rle(blocks: impl Iterator<Item = (u64, u32)>) -> String {
+    let mut out = String::new();
+    let mut run: Option<(u64, u64, u32)> = None;
+    for (n, b) in blocks {
+        match run {
+            Some((s, e, br)) if br == b && e + 1 == n => run = Some((s, n, br)),
+            Some((s, e, br)) => {
+                out.push_str(&format!("{s}-{e}@{br} "));
+                run = Some((n, n, b));
+            }
+            None => run = Some((n, n, b)),
+        }
+    }
+    if let Some((s, e, br)) = run {
+        out.push_str(&format!("{s}-{e}@{br}"));
+    }
+    out
+}
+
+fn branch_of_hash(h: &str) -> u32 {
+    // hash layout of node::Blk: B1 | number(8) | branch(4) | filler
+    hex::decode(h).ok().filter(|b| b.len() >= 13).map(|b| u32::from_be_bytes([b[9], b[10], b[11], b[12]])).unwrap_or(u32::MAX)
+}
+
+fn describe_tables(t: &Tables) -> serde_json::Value {
+    json!({
+        "blocks": rle(t.blocks.iter().map(|b| (b.0, branch_of_hash(&b.2)))),
+        "transactions": t.txs.len(),
+        "block_range_roots": t.roots.iter().map(|r| format!("[{},{}) {}", r.0, r.1, &r.2[..r.2.len().min(10)])).collect::<Vec<_>>(),
+        "legacy_block_range_roots": t.legacy_roots.iter().map(|r| format!("[{},{}) {}", r.0, r.1, &r.2[..r.2.len().min(10)])).collect::<Vec<_>>(),
+    })
+}
+
+fn first_diff<T: PartialEq + std::fmt::Debug>(name: &str, node: &[T], fresh: &[T]) -> Option<String> {
+    if node == fresh {
+        return None;
+    }
+    let i = node.iter().zip(fresh.iter()).position(|(a, b)| a != b).unwrap_or(node.len().min(fresh.len()));
+    Some(format!("{name}: node has {} rows, fresh import {}; first difference at row {i}: node {:?} / fresh {:?}", node.len(), fresh.len(), node.get(i), fresh.get(i)))
+}
+
+#[derive(Clone, Debug, PartialEq)]
+enum Lpp {
+    None,
+    Point(u64, String),
+    Unknown(u64),
+}
+
+struct Run<'a> {
+    cfg: Cfg,
+    mode: Mode,
+    fresh: &'a FreshCache,
+    db: PathBuf,
+    server: Arc<Mutex<Server>>,
+    sut: Option<Sut>,
+    lpp: Lpp,
+    pruned: bool,
+    incremental_imports: u32,
+    rollbacks_applied: u32,
+    violations: Vec<Violation>,
+    /// the tables diverged at an earlier import
+    corrupt: Option<String>,
+    outcome: String,
+}
+
+fn resolve_fork(to: ForkTo, tip: u64, first_stored: Option<u64>) -> Option<u64> {
+    let boundary = if tip >= RANGE { Some((tip / RANGE) * RANGE - 1) } else { None }; // highest 15k-1 < tip... (tip/15*15-1 <= tip-1)
+    let h = match to {
+        ForkTo::TipMinus1 => tip.checked_sub(1),
+        ForkTo::Boundary => boundary,
+        ForkTo::BoundaryMinus1 => boundary.map(|b| b - 1),
+        ForkTo::BoundaryPlus1 => boundary.map(|b| b + 1),
+        ForkTo::FirstStored => first_stored,
+        ForkTo::BeforeFirstStored => first_stored.map(|f| f - 1),
+    }?;
+    if h < tip { Some(h) } else { None }
+}
+
+fn resolve_target(t: Target, tip: u64) -> Option<u64> {
+    match t {
+        Target::Tip => (tip > 0).then_some(tip),
+        Target::TipMinus5 => (tip > 5).then(|| tip - 5),
+        Target::Abs(x) => Some(x),
+    }
+}
+
+impl Run<'_> {
+    fn replay_json(&self, history: &[Ev]) -> serde_json::Value {
+        json!({"cfg": self.cfg, "history": history})
+    }
+
+    /// returns false when the event is not applicable in the current state
+    async fn apply(&mut self, history: &[Ev], i: usize) -> bool {
+        let ev = history[i];
+        let last = i + 1 == history.len();
+        let check_roots = self.mode == Mode::Ball || last;
+        let tip = self.server.lock().unwrap().tip();
+        match ev {
+            Ev::Advance(n) => {
+                if tip + n > MAX_LEN as u64 {
+                    return false;
+                }
+                self.server.lock().unwrap().advance(n);
+                self.outcome = "chain-advanced".into();
+                true
+            }
+            Ev::Fork(to) => {
+                let first = read_tables(&self.db).min_block().map(|b| b.0);
+                let Some(h) = resolve_fork(to, tip, first) else { return false };
+                if tip + 1 > MAX_LEN as u64 {
+                    return false;
+                }
+                // the same fork point under an earlier name is the same event
+                for other in FORK_TOS {
+                    if other == to {
+                        break;
+                    }
+                    if resolve_fork(other, tip, first) == Some(h) {
+                        return false;
+                    }
+                }
+                self.server.lock().unwrap().fork(h, 1);
+                self.outcome = "chain-forked".into();
+                true
+            }
+            Ev::ArmFork(depth) => {
+                let mut s = self.server.lock().unwrap();
+                if s.armed_fork.is_some() {
+                    return false;
+                }
+                s.armed_fork = Some(depth);
+                self.outcome = "fork-armed".into();
+                true
+            }
+            Ev::Restart => {
+                self.sut = None;
+                self.sut = Some(Sut::start(&self.db, self.server.clone(), self.cfg));
+                self.lpp = Lpp::None;
+                self.outcome = "restarted".into();
+                true
+            }
+            Ev::Reconnect => {
+                let mut s = self.server.lock().unwrap();
+                if s.follower.is_none() {
+                    return false;
+                }
+                s.disconnect();
+                self.outcome = "reconnected".into();
+                true
+            }
+            Ev::Prune(keep) => {
+                let before = read_tables(&self.db);
+                let r = self.sut.as_ref().unwrap().prune(keep).await;
+                let after = read_tables(&self.db);
+                if r.is_err() {
+                    self.outcome = "prune-error".into();
+                    return true;
+                }
+                if before == after {
+                    // nothing to prune: same state, no new behaviour
+                    return false;
+                }
+                self.pruned = true;
+                self.outcome = "pruned".into();
+                true
+            }
+            Ev::Import(target) => {
+                let Some(t) = resolve_target(target, tip) else { return false };
+                for other in TARGETS {
+                    if other == target {
+                        break;
+                    }
+                    if resolve_target(other, tip) == Some(t) {
+                        return false;
+                    }
+                }
+                self.import(history, i, t, check_roots).await;
+                true
+            }
+        }
+    }
+
+    async fn import(&mut self, history: &[Ev], i: usize, t: u64, check_roots: bool) {
+        N_IMPORTS.fetch_add(1, Ordering::Relaxed);
+        let pre = read_tables(&self.db);
+        self.server.lock().unwrap().served.clear();
+        let sut = self.sut.as_ref().unwrap();
+        let sign_blocks = sut.sign_blocks(t).await;
+        let sign_legacy = if (t + 1) % RANGE == 0 && sign_blocks.is_ok() { Some(sut.sign_legacy(t).await) } else { None };
+        let (served, chain) = {
+            let s = self.server.lock().unwrap();
+            (s.served.clone(), s.chain.clone())
+        };
+        let post = read_tables(&self.db);
+        let error = sign_blocks.as_ref().err().or(sign_legacy.as_ref().and_then(|r| r.as_ref().err())).cloned();
+        let node_timeout = served.iter().any(|s| matches!(s, Served::Timeout));
+
+        // --- bookkeeping of what happened (from the node's side of the wire) --------------------
+        let mut scans = 0;
+        let mut from_slot = 0u64;
+        let mut echo_rollbacks = 0;
+        let mut real_rollbacks: Vec<(u64, u64)> = vec![]; // (height, slot)
+        let mut streamer_lpp: Option<(u64, String)> = None;
+        let mut intersect_not_found = false;
+        for s in &served {
+            match s {
+                Served::Intersect { slot, hash, found, not_sent } => {
+                    scans += 1;
+                    if scans == 1 {
+                        // the importer resumes from its last polled point, else the highest stored block
+                        let predicted = match &self.lpp {
+                            Lpp::Point(s, h) => Some((*s, h.clone())),
+                            Lpp::None => Some(pre.max_block().map(|b| (b.1, b.2.clone())).unwrap_or((0, String::new()))),
+                            Lpp::Unknown(_) => None,
+                        };
+                        if let Some(p) = predicted
+                            && p != (*slot, hash.clone())
+                        {
+                            N_SHADOW_MISMATCH.fetch_add(1, Ordering::Relaxed);
+                        }
+                    }
+                    from_slot = *slot;
+                    if !found && !not_sent {
+                        intersect_not_found = true;
+                    }
+                }
+                Served::Forward(b) => {
+                    if b.number <= t {
+                        streamer_lpp = Some((b.slot(), b.hash_hex()));
+                    }
+                }
+                Served::Backward { height, slot } => {
+                    if *slot == from_slot {
+                        echo_rollbacks += 1;
+                    } else {
+                        real_rollbacks.push((*height, *slot));
+                        let hash = if *height == 0 { String::new() } else { chain[*height as usize - 1].hash_hex() };
+                        streamer_lpp = Some((*slot, hash));
+                    }
+                }
+                Served::ForkDuringScan { .. } => {
+                    N_MIDSCAN_FORKS.fetch_add(1, Ordering::Relaxed);
+                }
+                Served::Await | Served::Timeout => {}
+            }
+        }
+        if intersect_not_found {
+            N_INTERSECT_NOT_FOUND.fetch_add(1, Ordering::Relaxed);
+        }
+        N_ROLLBACKS_ECHO.fetch_add(echo_rollbacks, Ordering::Relaxed);
+        N_ROLLBACKS_APPLIED.fetch_add(real_rollbacks.len() as u64, Ordering::Relaxed);
+        if scans == 0 {
+            N_IMPORTS_NO_SCAN.fetch_add(1, Ordering::Relaxed);
+        } else if !pre.blocks.is_empty() {
+            N_IMPORTS_INCREMENTAL.fetch_add(1, Ordering::Relaxed);
+            self.incremental_imports += 1;
+        }
+        if !pre.blocks.is_empty() {
+            self.rollbacks_applied += real_rollbacks.len() as u32;
+        }
+        match &error {
+            None => {
+                if let Some((s, h)) = streamer_lpp {
+                    self.lpp = Lpp::Point(s, h);
+                }
+            }
+            Some(_) if node_timeout => {} // failed inside the scan: last polled point not updated
+            Some(_) => self.lpp = Lpp::Unknown(hash64(&serde_json::to_string(&history[..=i]).unwrap())),
+        }
+        if let Some(e) = &error {
+            N_IMPORT_ERRORS.fetch_add(1, Ordering::Relaxed);
+            if node_timeout {
+                N_NODE_TIMEOUTS.fetch_add(1, Ordering::Relaxed);
+                self.outcome = "import-failed:node-timeout".into();
+                return;
+            }
+            self.outcome = format!("import-failed:{}", e.chars().take(40).collect::<String>());
+        } else if scans == 0 {
+            self.outcome = "import:nothing-to-scan".into();
+        } else if !real_rollbacks.is_empty() {
+            self.outcome = "import:rolled-back-and-forward".into();
+        } else if pre.blocks.is_empty() {
+            self.outcome = "import:from-empty".into();
+        } else {
+            self.outcome = "import:incremental".into();
+        }
+
+        // --- oracle 1: tables ------------------------------------------------------------------
+        N_TABLE_COMPARISONS.fetch_add(1, Ordering::Relaxed);
+        let fresh = self.fresh.get(&chain, t, self.cfg).await;
+        let node_part = post.up_to(t);
+        let mut expected = fresh.tables.up_to(t);
+        if self.pruned
+            && let Some(m) = node_part.min_block()
+        {
+            // pruning legitimately removes the oldest blocks: the node must hold a suffix
+            expected = expected.blocks_from(m.0);
+        }
+        let diffs: Vec<String> = [
+            first_diff("cardano_block", &node_part.blocks, &expected.blocks),
+            first_diff("cardano_tx", &node_part.txs, &expected.txs),
+            first_diff("block_range_root", &node_part.roots, &expected.roots),
+            first_diff("block_range_root_legacy", &node_part.legacy_roots, &expected.legacy_roots),
+        ]
+        .into_iter()
+        .flatten()
+        .collect();
+        if !diffs.is_empty() {
+            let first_stored_slot = pre.min_block().map(|b| b.1);
+            let below_first = real_rollbacks.iter().find(|(_, slot)| first_stored_slot.is_some_and(|f| *slot < f));
+            let echo_after_forwards = {
+                // a RollBackward to the scan's starting point that arrived after blocks were rolled forward
+                let mut fw = false;
+                let mut hit = false;
+                for s in &served {
+                    match s {
+                        Served::Forward(_) => fw = true,
+                        Served::Backward { slot, .. } if *slot == from_slot && fw => hit = true,
+                        Served::Intersect { .. } => fw = false,
+                        _ => {}
+                    }
+                }
+                hit
+            };
+            let key = if let Some((h, slot)) = below_first {
+                let _ = (h, slot);
+                "C13/rollback-before-first-stored-block-removes-nothing"
+            } else if echo_after_forwards {
+                "C13/rollback-to-scan-start-point-ignored-mid-scan"
+            } else if scans == 0 && error.is_none() {
+                "C13/import-skipped-when-target-already-stored-misses-rollback"
+            } else if error.is_some() {
+                "C13/import-error-leaves-tables-diverged"
+            } else if self.pruned {
+                "C13/tables-diverge-from-fresh-import-after-pruning"
+            } else {
+                "C13/tables-diverge-from-fresh-import"
+            };
+            let what = format!(
+                "after event #{i} {:?} (target block {t}) of history {} [max_roll_forwards_per_poll={}, pallas_agency={}] the node's tables differ from those of a fresh node that imports the canonical chain {} once up to {t}: {}. The node served in this import: {}. Import result: {}. Node tables: {} — fresh import: {}",
+                history[i],
+                serde_json::to_string(history).unwrap(),
+                self.cfg.max_roll_forwards,
+                self.cfg.pallas_agency,
+                rle(chain.iter().map(|b| (b.number, b.branch))),
+                diffs.join("; "),
+                describe_served(&served),
+                error.clone().unwrap_or_else(|| "ok".into()),
+                describe_tables(&post),
+                describe_tables(&fresh.tables),
+            );
+            self.violations.push(Violation { key: key.into(), what, replay: self.replay_json(&history[..=i]) });
+            self.corrupt = Some(key.to_string());
+            self.outcome = format!("violation:{key}");
+            return;
+        }
+        if error.is_some() {
+            return;
+        }
+
+        // --- oracle 2: roots offered for signing -------------------------------------------------
+        // the message the builders just produced for beacon t
+        let mut root_violations: Vec<(String, String)> = vec![];
+        if !same(&sign_blocks, &fresh.sign_blocks) {
+            let key = self.classify_root(&post, &chain, t, &sign_blocks).await;
+            root_violations.push((
+                key,
+                format!("CardanoBlocksTransactionsSignableBuilder::compute_protocol_message({t}) gives root {} but a fresh node that imports up to {t} gives {}", short(&sign_blocks), short(&fresh.sign_blocks)),
+            ));
+        }
+        if let (Some(a), Some(b)) = (&sign_legacy, &fresh.sign_legacy)
+            && !same(a, b)
+        {
+            root_violations.push((
+                "C13/legacy-root-differs-from-fresh-import".into(),
+                format!("CardanoTransactionsSignableBuilder::compute_protocol_message({t}) gives root {} but a fresh node that imports up to {t} gives {}", short(a), short(b)),
+            ));
+        }
+        if check_roots {
+            let sut = self.sut.as_ref().unwrap();
+            for b in 1..t {
+                N_ROOT_COMPARISONS.fetch_add(1, Ordering::Relaxed);
+                let node_root = sut.root_blocks(b).await;
+                let fb = self.fresh.get(&chain, b, self.cfg).await;
+                if !same(&node_root, &fb.sign_blocks) {
+                    let key = self.classify_root(&post, &chain, b, &node_root).await;
+                    if !root_violations.iter().any(|(k, _)| *k == key) {
+                        root_violations.push((
+                            key,
+                            format!(
+                                "after importing up to {t}, the blocks/transactions builder's root for beacon {b} is {} but a fresh node that imported exactly up to {b} signs {}",
+                                short(&node_root),
+                                short(&fb.sign_blocks)
+                            ),
+                        ));
+                    }
+                }
+                if (b + 1) % RANGE == 0 {
+                    // the legacy entity is only ever signed at the last block of a range
+                    N_ROOT_COMPARISONS.fetch_add(1, Ordering::Relaxed);
+                    let node_root = sut.root_legacy(b).await;
+                    if let Some(exp) = &fb.sign_legacy
+                        && !same(&node_root, exp)
+                        && !root_violations.iter().any(|(k, _)| k == "C13/legacy-root-differs-from-fresh-import")
+                    {
+                        root_violations.push((
+                            "C13/legacy-root-differs-from-fresh-import".into(),
+                            format!(
+                                "after importing up to {t}, the legacy transactions builder's root for beacon {b} is {} but a fresh node that imported exactly up to {b} signs {}",
+                                short(&node_root),
+                                short(exp)
+                            ),
+                        ));
+                    }
+                }
+            }
+        }
+        for (key, msg) in root_violations {
+            let what = format!(
+                "{msg}. History {} [max_roll_forwards_per_poll={}, pallas_agency={}], event #{i} {:?}, canonical chain {}. Node tables: {}",
+                serde_json::to_string(&history[..=i]).unwrap(),
+                self.cfg.max_roll_forwards,
+                self.cfg.pallas_agency,
+                history[i],
+                rle(chain.iter().map(|b| (b.number, b.branch))),
+                describe_tables(&post),
+            );
+            self.outcome = format!("violation:{key}");
+            self.violations.push(Violation { key, what, replay: self.replay_json(&history[..=i]) });
+        }
+    }
+
+    /// name the cause of a wrong root for beacon b
+    async fn classify_root(&self, post: &Tables, chain: &[Blk], b: u64, node_root: &Result<String, String>) -> String {
+        let start = b / RANGE * RANGE;
+        let end = start + RANGE;
+        let partial = (b + 1) % RANGE != 0;
+        let stored_full = post.roots.iter().any(|r| r.0 == start && r.1 == end);
+        if partial && stored_full && start < b {
+            // is the node's answer what a node answers that has imported the whole range?
+            let later = self.fresh.get(chain, end - 1, self.cfg).await;
+            if later.roots_blocks.get(b as usize).is_some_and(|r| same(r, node_root)) {
+                return "C13/partial-beacon-root-uses-later-range-root".into();
+            }
+        }
+        "C13/root-differs-from-fresh-import".into()
+    }
+
+    fn canon(&self) -> String {
+        if let Some(k) = &self.corrupt {
+            return format!("diverged:{k}");
+        }
+        let t = read_tables(&self.db);
+        let s = self.server.lock().unwrap();
+        format!(
+            "chain[{}] next_branch={} armed={:?} follower={:?} | db blocks[{}] tx={:x} roots={:x}/{} legacy={:x}/{} | lpp={:?} pruned={}",
+            rle(s.chain.iter().map(|b| (b.number, b.branch))),
+            s.next_branch,
+            s.armed_fork,
+            s.follower,
+            rle(t.blocks.iter().map(|b| (b.0, branch_of_hash(&b.2)))),
+            hash64(&t.txs),
+            hash64(&t.roots),
+            t.roots.len(),
+            hash64(&t.legacy_roots),
+            t.legacy_roots.len(),
+            self.lpp,
+            self.pruned
+        )
+    }
+}
+
+fn describe_served(served: &[Served]) -> String {
+    let mut out = vec![];
+    let mut fw: Option<(Blk, Blk)> = None;
+    let flush = |fw: &mut Option<(Blk, Blk)>, out: &mut Vec<String>| {
+        if let Some((a, b)) = fw.take() {
+            out.push(if a == b { format!("RollForward({}@{})", a.number, a.branch) } else { format!("RollForward({}@{}..{}@{})", a.number, a.branch, b.number, b.branch) });
+        }
+    };
+    for s in served {
+        match s {
+            Served::Forward(b) => {
+                fw = Some(match fw {
+                    Some((a, _)) => (a, *b),
+                    None => (*b, *b),
+                })
+            }
+            other => {
+                flush(&mut fw, &mut out);
+                out.push(match other {
+                    Served::Intersect { slot, found, not_sent, .. } => {
+                        format!("FindIntersect(slot {slot}){}", if *not_sent { " not sent (no agency)" } else if *found { "" } else { " not found" })
+                    }
+                    Served::Backward { height, slot } => format!("RollBackward(block {height}, slot {slot})"),
+                    Served::Await => "Await".into(),
+                    Served::Timeout => "timeout".into(),
+                    Served::ForkDuringScan { to } => format!("<node switches to a fork at block {to}>"),
+                    Served::Forward(_) => unreachable!(),
+                });
+            }
+        }
+    }
+    flush(&mut fw, &mut out);
+    if out.is_empty() { "nothing (the node was not contacted)".into() } else { out.join(", ") }
+}
+
+pub fn replay(scratch: &Path, cfg: Cfg, mode: Mode, fresh: &FreshCache, history: &[Ev]) -> RunResult {
+    let rt = tokio::runtime::Builder::new_current_thread().enable_all().max_blocking_threads(2).build().expect("tokio runtime");
+    let db = new_db(scratch);
+    let res = rt.block_on(async {
+        let server = Arc::new(Mutex::new(Server::new(MAX_LEN)));
+        let mut run = Run {
+            cfg,
+            mode,
+            fresh,
+            db: db.clone(),
+            server: server.clone(),
+            sut: None,
+            lpp: Lpp::None,
+            pruned: false,
+            incremental_imports: 0,
+            rollbacks_applied: 0,
+            violations: vec![],
+            corrupt: None,
+            outcome: "initial".into(),
+        };
+        run.sut = Some(Sut::start(&db, server, cfg));
+        let mut disabled = false;
+        for i in 0..history.len() {
+            let last = i + 1 == history.len();
+            let applicable = run.apply(history, i).await;
+            if !applicable && last && mode == Mode::Bfs {
+                disabled = true;
+            }
+            if run.corrupt.is_some() {
+                if !last && mode == Mode::Bfs {
+                    // reported when this prefix was explored; states behind a divergence are not explored
+                    disabled = true;
+                }
+                break;
+            }
+        }
+        let canon = run.canon();
+        let nontrivial = run.incremental_imports > 0;
+        let r = RunResult { canon, violations: std::mem::take(&mut run.violations), nontrivial, outcome: run.outcome.clone(), disabled };
+        run.sut = None;
+        r
+    });
+    drop(rt);
+    remove_db(&db);
+    res
+}
+
+pub fn alphabet(thorough: bool) -> Vec<Ev> {
+    let mut v = vec![Ev::Advance(1), Ev::Advance(7), Ev::Advance(16)];
+    v.extend(FORK_TOS.iter().map(|f| Ev::Fork(*f)));
+    v.extend(TARGETS.iter().map(|t| Ev::Import(*t)));
+    v.push(Ev::Restart);
+    v.push(Ev::Prune(10));
+    v.push(Ev::ArmFork(2));
+    if thorough {
+        v.push(Ev::ArmFork(1));
+        v.push(Ev::ArmFork(3));
+        v.push(Ev::Reconnect);
+        v.push(Ev::Prune(0));
+    }
+    v
+}
+
+pub fn nominal() -> Vec<Ev> {
+    use Ev::*;
+    vec![
+        Advance(16),
+        Import(Target::Tip),
+        Advance(7),
+        Import(Target::TipMinus5),
+        Advance(16),
+        Import(Target::Tip),
+        Fork(ForkTo::BoundaryMinus1),
+        Import(Target::Tip),
+        Advance(7),
+        Import(Target::Tip),
+    ]
+}
+
+pub fn run(ctx: &Ctx) -> ! {
+    let scratch = ctx.scratch();
+    let mut rep = Report::new(
+        "model_checking",
+        "explicit-state exploration by replay of the real signer chain-data stack (block scanner, streamer, importer, \
+         repository, SQLite, both transaction signable builders) against a chain-sync node double: every history is \
+         replayed on a fresh node and compared, after every import, with a fresh node that imports the canonical chain \
+         once; a history is non-trivial when at least one import resumed on a non-empty store; distinct = distinct \
+         canonical states (chain, tables, server read pointer, importer cursor)",
+    );
+    let fresh = FreshCache::new(&scratch);
+    let quick = ctx.tier == mc_core::Tier::Quick;
+
+    if let Some(path) = &ctx.replay {
+        let v = mc_core::load_replay(path);
+        let h: Vec<Ev> = serde_json::from_value(v["history"].clone()).expect("history in replay file");
+        let cfg: Cfg = serde_json::from_value(v["cfg"].clone()).expect("cfg in replay file");
+        let r = replay(&scratch, cfg, Mode::Ball, &fresh, &h);
+        eprintln!("replayed {} events under {:?}: outcome {}\nstate: {}", h.len(), cfg, r.outcome, r.canon);
+        rep.eval();
+        for v in r.violations {
+            eprintln!("  {}: {}", v.key, v.what);
+            rep.push_violation(v);
+        }
+        rep.nontrivial(&0);
+        rep.nontrivial(&1);
+        rep.states = Some(1);
+        rep.transitions = Some(1);
+        rep.traces_validated = Some(1);
+        rep.sample(json!({"history": h, "cfg": cfg}));
+        rep.finish(ctx);
+    }
+
+    use Ev::*;
+    let p1: Vec<Ev> = vec![Advance(16), Advance(16), Import(Target::Tip)];
+    let p2: Vec<Ev> = vec![Advance(16), Advance(16), Advance(16), Import(Target::Abs(44)), Prune(10)];
+    let prefixes = vec![vec![], p1, p2];
+    let alpha = alphabet(!quick);
+    let configs: Vec<(Cfg, usize)> = if quick {
+        vec![
+            (Cfg { max_roll_forwards: 3, pallas_agency: false }, 3),
+            (Cfg { max_roll_forwards: 100, pallas_agency: true }, 3),
+            (Cfg { max_roll_forwards: 1, pallas_agency: false }, 2),
+        ]
+    } else {
+        vec![
+            (Cfg { max_roll_forwards: 3, pallas_agency: false }, 4),
+            (Cfg { max_roll_forwards: 100, pallas_agency: true }, 4),
+            (Cfg { max_roll_forwards: 1, pallas_agency: true }, 3),
+            (Cfg { max_roll_forwards: 100, pallas_agency: false }, 3),
+        ]
+    };
+    let mut bfs_info = vec![];
+    for (cfg, depth) in &configs {
+        let runf = |h: &[Ev]| replay(&scratch, *cfg, Mode::Bfs, &fresh, h);
+        let ex = Explorer { threads: ctx.threads(), budget: None, run: &runf };
+        let t0 = std::time::Instant::now();
+        let st = ex.bfs(&prefixes, &alpha, *depth, &mut rep);
+        bfs_info.push(json!({"cfg": cfg, "prepared_states": prefixes.len(), "alphabet": alpha.len(), "depth_completed": st.depth_completed,
+            "histories": st.transitions, "states": st.states, "wall_s": (t0.elapsed().as_secs_f64()*10.0).round()/10.0}));
+    }
+    rep.extra("bfs", json!(bfs_info));
+
+    // deviation ball around a nominal advance/import schedule that runs to completion
+    let nom = nominal();
+    let dev = alphabet(true);
+    let edits = |h: &[Ev]| standard_edits(h, &dev, 0);
+    let mut ball_info = vec![];
+    let ball_cfgs: Vec<(Cfg, usize)> = if quick {
+        vec![(Cfg { max_roll_forwards: 3, pallas_agency: true }, 1)]
+    } else {
+        vec![(Cfg { max_roll_forwards: 3, pallas_agency: true }, 2), (Cfg { max_roll_forwards: 100, pallas_agency: false }, 1)]
+    };
+    for (cfg, bound) in &ball_cfgs {
+        let runf = |h: &[Ev]| replay(&scratch, *cfg, Mode::Ball, &fresh, h);
+        let ex = Explorer { threads: ctx.threads(), budget: None, run: &runf };
+        let t0 = std::time::Instant::now();
+        let st = ex.ball(&nom, &edits, *bound, &mut rep);
+        ball_info.push(json!({"cfg": cfg, "nominal_len": nom.len(), "deviation_alphabet": dev.len(), "bound_completed": st.depth_completed,
+            "histories": st.transitions, "states": st.states, "wall_s": (t0.elapsed().as_secs_f64()*10.0).round()/10.0}));
+    }
+    rep.extra("ball", json!(ball_info));
+
+    let g = |a: &AtomicU64| a.load(Ordering::Relaxed);
+    rep.extra("imports_executed", json!(g(&N_IMPORTS)));
+    rep.extra("imports_without_contacting_the_node", json!(g(&N_IMPORTS_NO_SCAN)));
+    rep.extra("imports_resumed_on_non_empty_store", json!(g(&N_IMPORTS_INCREMENTAL)));
+    rep.extra("rollbacks_applied_to_store", json!(g(&N_ROLLBACKS_APPLIED)));
+    rep.extra("rollbacks_skipped_as_intersect_echo", json!(g(&N_ROLLBACKS_ECHO)));
+    rep.extra("intersects_not_found", json!(g(&N_INTERSECT_NOT_FOUND)));
+    rep.extra("forks_during_a_scan", json!(g(&N_MIDSCAN_FORKS)));
+    rep.extra("import_errors", json!(g(&N_IMPORT_ERRORS)));
+    rep.extra("import_errors_from_node_timeout", json!(g(&N_NODE_TIMEOUTS)));
+    rep.extra("table_comparisons", json!(g(&N_TABLE_COMPARISONS)));
+    rep.extra("root_comparisons", json!(g(&N_ROOT_COMPARISONS)));
+    rep.extra("fresh_reference_imports", json!(fresh.len()));
+    rep.extra("bounds", json!({"max_chain_length": MAX_LEN, "block_range_length": RANGE}));
+    if g(&N_SHADOW_MISMATCH) > 0 {
+        rep.machinery_error(format!(
+            "{} scans started from a point other than the one the harness predicted (last polled point, else highest stored block): the importer-cursor part of the canonical state is wrong",
+            g(&N_SHADOW_MISMATCH)
+        ));
+    }
+    rep.assume(
+        "the Cardano node is the only double: a chain-sync server behind the repository's ChainBlockReader trait. Reading of \
+         the protocol: one read pointer per connection, a new connection starts at Origin with a pending RollBackward(Origin); \
+         FindIntersect(p) moves the pointer to p and makes the next answer RollBackward(p) when p is on the server's chain and \
+         changes nothing otherwise; a switch to a fork that does not contain the pointer moves it to the fork point and makes the \
+         next answer RollBackward(fork point); otherwise RollForward(next) or Await at the tip; pallas is not run",
+    );
+    rep.assume(
+        "pallas_agency=true also models PallasChainReader after an AwaitReply (no FindIntersect is sent while the server has the \
+         agency; if the server stays silent the reader times out, errors and reconnects); failed imports caused by that time-out are not judged",
+    );
+    rep.assume("a fork always yields a chain one block longer than the one it replaces (longest-chain rule); chains <= 50 blocks, block numbers consecutive from 1");
+    rep.assume(
+        "tables are compared on the part that concerns blocks <= target (a node may legitimately hold more from an earlier, higher import); \
+         after pruning the node must hold a suffix of the fresh node's blocks and exactly its range roots",
+    );
+    rep.assume("the legacy CardanoTransactions root is only judged at beacons that end a block range (the only ones the beacon rule produces, C17); Merkle trees use MKTreeStoreInMemory instead of the signer's SQLite-backed store");
+    rep.assume("histories behind a table divergence are not explored further (the divergence itself is reported)");
+    rep.finish(ctx)
 }
